@@ -165,4 +165,27 @@ example : F.check 16 0 (prefixF ⟨[1,0,0,0,0,0,0,0,0,0,0,0,0,0,0,0], 48⟩)
 example : F.cexVec 16 (prefixF ⟨[1,0,0,0,0,0,0,0,0,0,0,0,0,0,0,0], 48⟩)
     (prefixF ⟨[1,0,0,0,0,0,0,0,0,0,0,0,0,0,0,0], 64⟩) = some [1,0,0,0,0,0,0,1,0,0,0,0,0,0,0,0] := by decide +kernel
 
+-- `ip = ip.Unmap()` before the `Is4` test (the translator emits `D.unmap`): a 4in6 address
+-- reaches the IPv4 predicate, evaluated on the unmapped address, so the `v4in6` obligation
+-- (`= .on16 f6`) cannot hold; the other three kinds are not affected
+example (f4 f6 : F) :
+    (D.unmap (.ite .is4 (.on4 f4) (.on16 f6))).reach .v4in6 = .unmap (.on4 f4) ∧
+    (D.unmap (.ite .is4 (.on4 f4) (.on16 f6))).reach .v4 = .on4 f4 ∧
+    (D.unmap (.ite .is4 (.on4 f4) (.on16 f6))).reach .v6 = .on16 f6 := by
+  simp [D.reach, Cond.holds]
+example : (D.unmap (.ite .is4 (.on4 .ff) (.on16 .ff))).reach .v4in6 ≠ .on16 .ff := by decide
+-- … and the model then really runs the IPv4 predicate on `10.0.0.1` for `::ffff:10.0.0.1`
+example : (D.unmap (.ite .is4 (.on4 (prefixF ⟨[10,0,0,0], 8⟩)) (.on16 .ff))).eval
+    (.v6 0x00000000000000000000ffff0a000001#128 "") = .ok true := by decide +kernel
+-- an `Unmap` that only IPv4 addresses reach is the identity and changes nothing
+example (f4 f6 : F) (k : Kind) :
+    (D.ite .is4 (.unmap (.on4 f4)) (.on16 f6)).reach k = (D.ite .is4 (.on4 f4) (.on16 f6)).reach k := by
+  cases k <;> simp [D.reach, Cond.holds]
+-- the tagless `switch { case Is4: …; case Is6: …; default: false }` meets the four dispatch
+-- obligations just like `if !IsValid {false}; if Is4 {…}; …`
+example (f4 f6 : F) (k : Kind) :
+    (D.ite .is4 (.on4 f4) (.ite .is6 (.on16 f6) (.ret false))).reach k =
+    (D.ite .isValid (.ite .is4 (.on4 f4) (.on16 f6)) (.ret false)).reach k := by
+  cases k <;> simp [D.reach, Cond.holds]
+
 end GolibsVerif.C06
